@@ -255,7 +255,7 @@ func tokenisationRule(c *Check, rule string, fams map[string][]*StoreWrite) {
 			continue
 		}
 		x := c.P.Ex(fn)
-		for _, cs := range c.P.CallsIn(fn) {
+		for _, cs := range c.P.CallsInOwn(fn) {
 			if cs.Name != "strings.Split" && cs.Name != "strings.SplitN" && cs.Name != "bytes.Split" && cs.Name != "bytes.SplitN" {
 				continue
 			}
@@ -412,7 +412,7 @@ func freshDecodeRule(c *Check, rule string) {
 			continue
 		}
 		fa := c.P.FA(fn)
-		for _, cs := range c.P.CallsIn(fn) {
+		for _, cs := range c.P.CallsInOwn(fn) {
 			if !strings.Contains(cs.Name, "Unmarshal") || strings.Contains(cs.Name, "UnmarshalInterface") {
 				continue
 			}
